@@ -1,0 +1,14 @@
+//go:build verif
+
+package hsms
+
+// VerifItemHook, when set, receives one event per item header the decoder reads:
+// the position after the length bytes, the format code, the number of length
+// bytes and the length the decoder computed from them.
+var VerifItemHook func(pos int, formatCode int, lengthBytes int, length int)
+
+func verifItem(pos int, formatCode int, lengthBytes int, length int) {
+	if VerifItemHook != nil {
+		VerifItemHook(pos, formatCode, lengthBytes, length)
+	}
+}
